@@ -851,7 +851,21 @@ def leaves_expression():
             sp.Derivative(f(t), t), x / t, x * Quantity(2 * u.meter)]
 
 
-def search_collect_expression(seed=0, budget=6000, depth=2):
+def known_cause_collect_expression(tr, why):
+    """root-cause key of a disagreement that known_findings.json may list (None: not a recognised cause).
+    D23: SymPy deduces that a zero-valued Quantity is NEGATIVE (sympy's Quantity is declared real and non-zero at class level,
+    symplyphysics' _eval_is_positive says 'not positive'), so 0**q / oo**q with a zero-valued quantity q evaluate to zoo / 0."""
+    from sympy.physics.units import Quantity as SymQuantity
+    if "returned expression" in why or "value" in why:
+        for pw in sp.sympify(tr).atoms(sp.Pow):
+            ex = pw.exp
+            if isinstance(ex, SymQuantity) and sp.sympify(ex.scale_factor).is_zero:
+                return "power-whose-exponent-is-a-zero-valued-quantity"
+    return None
+
+
+def search_collect_expression(seed=0, budget=6000, depth=2, known=None):
+    """first disagreement that is not a listed known cause; `known` (a dict) collects cause -> (tree, why, index) of the listed ones"""
     rng = random.Random(seed)
     n = 0
     for tr in trees(leaves_expression(), depth, rng, budget):
@@ -861,6 +875,10 @@ def search_collect_expression(seed=0, budget=6000, depth=2):
         except Exception:
             continue
         if why:
+            cause = known_cause_collect_expression(tr, why)
+            if known is not None and cause is not None:
+                known.setdefault(cause, (tr, why, n))
+                continue
             return tr, why, n
     return None, None, n
 
